@@ -129,6 +129,15 @@ fn histories<'a>(env: &'a Env, thorough: bool) -> Vec<History<'a>> {
         sc.filter_batch = batch;
         v.push(History { name: format!("fork-while-down/depth{}/growth{}/set{}/batch{}", depth, growth, set, batch), sc: Box::new(sc), devs: vec![], regs, final_chain: 1 });
     }
+    // the same with an old branch without script activity after block 8: the filter batches over
+    // its last blocks match nothing and only move the scripts' block numbers and then the min
+    // filtered block number (two writes); the new branch has activity in every block
+    for (depth, growth, set, batch) in if thorough { vec![(2u64, 4u64, 1usize, 6u64), (2, 4, 1, 2), (1, 3, 1, 3), (2, 5, 3, 4), (1, 5, 0, 5), (2, 4, 1, 1)] } else { vec![(2u64, 4u64, 1usize, 6u64), (2, 4, 1, 3)] } {
+        let (mut sc, regs) = c04::scenario_with(env, 3, depth, growth, set, true);
+        sc.switch_while_down = true;
+        sc.filter_batch = batch;
+        v.push(History { name: format!("fork-while-down/quiet-old-branch/depth{}/growth{}/set{}/batch{}", depth, growth, set, batch), sc: Box::new(sc), devs: vec![], regs, final_chain: 1 });
+    }
     v
 }
 
